@@ -3,6 +3,8 @@ package crashrig
 import (
 	"encoding/hex"
 	"fmt"
+	"sort"
+	"strings"
 
 	"github.com/lianxiangcloud/linkchain/libs/common"
 	lktypes "github.com/lianxiangcloud/linkchain/libs/cryptonote/types"
@@ -25,6 +27,7 @@ type utxoRef struct {
 	outputs map[common.Address][]string // digest of output i
 	spent   []lktypes.Key               // key images of all blocks <= this height
 	own     []lktypes.Key               // key images of this height's block
+	init    map[uint64]string           // per height <= this one: the block's initial output sequence per token
 }
 
 func outputDigest(o *types.UTXOOutputData) string {
@@ -58,6 +61,13 @@ func takeUtxoRef(n *node, r *crashRun, h uint64, blk *types.Block) *utxoRef {
 	}
 	ref.spent = append(ref.spent, ref.own...)
 	store := durableUtxoStore(n.disk)
+	ref.init = map[uint64]string{}
+	if prev := r.ref[h-1]; prev != nil && prev.utxo != nil {
+		for k, v := range prev.utxo.init {
+			ref.init[k] = v
+		}
+	}
+	ref.init[h] = initDigest(store.GetBlockTokenUtxoOutputSeq(h))
 	for _, tok := range r.w.txg.L.Tokens() {
 		cnt := store.GetMaxUtxoOutputSeq(tok) + 1
 		if cnt <= 0 {
@@ -75,6 +85,19 @@ func takeUtxoRef(n *node, r *crashRun, h uint64, blk *types.Block) *utxoRef {
 		}
 	}
 	return ref
+}
+
+func initDigest(m map[string]int64) string {
+	ks := make([]string, 0, len(m))
+	for k := range m {
+		ks = append(ks, k)
+	}
+	sort.Strings(ks)
+	out := ""
+	for _, k := range ks {
+		out += fmt.Sprintf("%s=%d;", k, m[k])
+	}
+	return out
 }
 
 // modelOutputs is the number of hidden outputs of a token the reference
@@ -107,32 +130,42 @@ func (r *crashRun) checkUtxo(n *node, sc *scenario, z *zRef, H uint64, phase str
 		}
 	}
 	for _, v := range views {
+		var behind []string
 		for _, tok := range tokens {
 			want := u.count[tok]
 			got := v.store.GetMaxUtxoOutputSeq(tok) + 1
 			if got != want {
-				if r.violate(sc, "utxo-index", "%s: %s holds %d outputs of token %s at store height %d, the chain up to that height created %d", phase, v.name, got, tok.Hex(), H, want) {
-					return false
-				}
-				break
+				behind = append(behind, fmt.Sprintf("output index of token %s holds %d outputs, the chain up to height %d created %d", tok.Hex(), got, H, want))
+				continue
 			}
 			for i := int64(0); i < want; i++ {
 				o, err := v.store.GetUtxoOutput(tok, uint64(i))
 				if err != nil || o == nil || outputDigest(o) != u.outputs[tok][i] {
-					if r.violate(sc, "utxo-output", "%s: %s: output %d of token %s is missing or differs (err=%v)", phase, v.name, i, tok.Hex(), err) {
-						return false
-					}
+					behind = append(behind, fmt.Sprintf("output %d of token %s is missing or differs (err=%v)", i, tok.Hex(), err))
 					break
 				}
 			}
 		}
-		for i := range u.spent {
-			if !v.store.HaveTxKeyimgAsSpent(&u.spent[i]) {
-				if r.violate(sc, "key-image-lost", "%s: %s: a key image spent by a block <= %d is not marked spent (the hidden output can be spent again)", phase, v.name, H) {
-					return false
-				}
+		for hh := uint64(1); hh <= refH; hh++ {
+			if got := initDigest(v.store.GetBlockTokenUtxoOutputSeq(hh)); got != u.init[hh] {
+				behind = append(behind, fmt.Sprintf("per-block initial output sequence record of height %d is %q, the uncrashed execution stored %q", hh, got, u.init[hh]))
 				break
 			}
+		}
+		lost := 0
+		for i := range u.spent {
+			if !v.store.HaveTxKeyimgAsSpent(&u.spent[i]) {
+				lost++
+			}
+		}
+		if lost > 0 {
+			behind = append(behind, fmt.Sprintf("%d of the %d key images spent by blocks <= %d are not marked spent (those hidden outputs can be spent again)", lost, len(u.spent), H))
+		}
+		if len(behind) > 0 {
+			if r.violate(sc, "utxo-store-behind", "%s: block store, state and status are at height %d but the %s is not: %s", phase, H, v.name, strings.Join(behind, "; ")) {
+				return false
+			}
+			break // the live store was loaded from the same records
 		}
 		if H == h-1 && z.ref.utxo != nil {
 			for i := range z.ref.utxo.own {
